@@ -81,6 +81,8 @@ impl Function {
     }
 
     pub(crate) fn exec(&self, interpreter: &mut Interpreter) -> Result<Variable, ExecError> {
+        #[cfg(simplesl_verif)]
+        let _fuel = simplesl_verif_seams::fuel::enter_call();
         let body = match &self.body {
             Body::Lang(body) => body,
             Body::Native(body) => return (body)(interpreter),
